@@ -172,11 +172,14 @@ func (e *Executor) SweepRaw(i int, op string) *Violation {
 						fmt.Sprintf("h=%d sz=%d key=%x l=%v r=%v marker=%q", n.h, n.sz, n.key, n.l, n.r, n.marker))
 				}
 				// the stored hash is the hash of the subtree
-				id := nk
-				if id.ID == 0 {
-					id.ID = 1
+				sn := byID[nk]
+				if sn == nil && nk.ID == 0 {
+					sn = byID[model.NodeKey{Ver: nk.Ver, ID: 1}]
 				}
-				if sn := byID[id]; sn != nil {
+				if sn == nil {
+					return viol("raw", i, op, fmt.Sprintf("s(%d,%d)", nk.Ver, nk.ID), "a node of a retained tree", "no such node in the specification state")
+				}
+				{
 					if hw := e.h.Hash(sn, 0); !bytes.Equal(hw, n.hash) {
 						return viol("raw", i, op, fmt.Sprintf("hash stored in s(%d,%d)", nk.Ver, nk.ID), hx(hw), hx(n.hash))
 					}
